@@ -117,7 +117,9 @@ func (s *Sorts) SortOf(t types.Type) string {
 }
 
 func (s *Sorts) structSort(t types.Type, u *types.Struct) *structInfo {
-	key := typeKey(t)
+	// named types with identical underlying structs share one sort, so that Go
+	// conversions between them (ChangeType) need no term-level conversion
+	key := typeKey(u)
 	if si, ok := s.structs[key]; ok {
 		return si
 	}
